@@ -54,7 +54,9 @@ RULE = ("indices below 6175 (x8 seeds in thorough) = the i-th bus population und
 REAL = ["xknx.management.procedures.network.* and device.*", "xknx.management.Management / P2PConnection / BroadcastContext",
         "xknx.cemi.CEMIHandler", "xknx.telegram.apci / tpci codecs", "xknx.core.TaskRegistry.background"]
 STUB = ["KNX bus with SimKNXDevice population (sim.knxbus, independent transport layer)", "KNXIPInterface (StubInterface)",
-        "wall clock seam (management rate limit)", "loop (SimLoop)"]
+        "wall clock seam (management rate limit)", "loop (SimLoop)",
+        "receive batching (some runs): a device's answer is handed in within the same receive callback as the L_Data.con of the "
+        "frame it answers; some devices ignore data frames while no connection is open instead of answering T_Disconnect"]
 ASSUMPTIONS = ["the bus is reliable and devices answer inside the specified timeouts",
                "silent devices are undetectable for any procedure and excluded from the conflict clause",
                "a 'refusing' device answers T_Connect with T_Disconnect and answers broadcasts"]
@@ -77,7 +79,9 @@ def gen_index(i: int, seed: int, tier: str) -> dict[str, Any]:
                      "key_level": rng.choice([0, 1, 2, 15]),
                      # the T_ACK of the first transmission of a request may get lost (its answer still arrives): the request is
                      # repeated and acknowledged then
-                     "ack": rng.choice(["normal", "normal", "normal", "lost_once"])})
+                     "ack": rng.choice(["normal", "normal", "normal", "lost_once"]),
+                     # a device without an open connection ignores data frames instead of answering each with T_Disconnect
+                     "closed_silent": rng.random() < 0.4})
     return {"seed": seed, "tier": "S", "config": {"proc": proc, "batch": 1, "foreign_serial_answer": rng.random() < 0.5,
                                                    "target_serial": rng.choice([1, 2, 3, 9]),
                                                    # delay of the L_Data.con of every frame sent: a device's answer may
@@ -85,7 +89,10 @@ def gen_index(i: int, seed: int, tier: str) -> dict[str, Any]:
                                                    "con_d": rng.choice([0.003, 0.003, 0.003, 0.06, 0.4, 1.2]),
                                                    # an earlier, unrelated procedure on the same XKNX object: does one of the
                                                    # bus addresses answer? (connects to it; a device may refuse or stay silent)
-                                                   "prelude": rng.choice(["a", "b", "T"]) if rng.random() < 0.25 else None},
+                                                   "prelude": rng.choice(["a", "b", "T"]) if rng.random() < 0.25 else None,
+                                                   # the devices' answers reach xknx in the same receive callback as the
+                                                   # L_Data.con of the frame they answer (frames coalesced in one TCP read)
+                                                   "glue": rng.choice([None, None, None, "t_connect", "all"])},
             "devices": devs, "ops": []}
 
 
@@ -115,8 +122,18 @@ def run(plan: dict[str, Any]) -> dict[str, Any]:
             dv.script = dict(dv.script, ack=d["ack"])
             dv.base_script = dict(dv.script)
             R.extra_faults["device_first_ack_lost"] += 1
+        if d.get("closed_silent"):
+            dv.script = dict(dv.script, closed_silent=True)
+            dv.base_script = dict(dv.script)
         devs.append(dv)
     bus.lat_of = lambda dev: getattr(dev, "_lat", 0.02)
+    if cfg.get("glue"):
+        def glue(c, mode=cfg["glue"]):
+            if mode == "all" or (c["tpdu"] and c["tpdu"][0] == 0x80):
+                R.extra_faults["answer_coalesced_with_confirmation"] += 1
+                return True
+            return False
+        bus.glue = glue
     T = ADDRS["T"]
     before = [(d.ia, d.prog, d.behaviour) for d in devs]
     out: dict[str, Any] = {"result": None, "exc": None}
